@@ -152,3 +152,52 @@ def CANDIDATES(func: str):
     else:
         for sel in itertools.product(range(2), range(2), range(3), range(15), range(13), range(3), range(2)):
             yield [list(sel) + [0] * 3]
+
+
+FOREIGN = ["ext.lib.A", "ext.lib.B", "other.lib.C", "ext.lib2.D", "a.b.lib.E"]
+
+
+def rerun_foreign(sel: List[int]) -> bool:
+    """Placeholder stubs for classes of other libraries: a second run into the populated directory leaves exactly the
+    files and contents of a single run (first class of a module writes, further classes append - per run).
+
+    pre: len(sel) == SEL_LEN and fixed(sel)
+    post: _
+    """
+    try:
+        cur = Cur()
+        convert = rd(sel, cur, 2) == 1
+        chosen = [q for q in FOREIGN if rd(sel, cur, 2) == 1]
+        if not (1 <= len(chosen) <= 3):
+            raise OutOfRange
+    except OutOfRange:
+        return True
+    from safeds_stubgen.api_analyzer._types import NamedType
+    from vlib.gapi import INT, mk_function
+
+    def build():
+        api = mk_api()
+        m = mk_module(api, "pkg/m")
+        mk_function(api, m, "f", params=[{"name": f"p{i}", "type_": NamedType(q.split(".")[-1], q)} for i, q in enumerate(chosen)],
+                    results=[("result_1", INT)])
+        return api
+
+    fs = install_fake_fs()
+    out = FakePath("/out")
+    g1 = SG.StubsStringGenerator(api=build(), convert_identifiers=convert)
+    GS.create_stub_files(g1, GS.generate_stub_data(g1, out), out)
+    files1 = dict(fs.files)
+    g2 = SG.StubsStringGenerator(api=build(), convert_identifiers=convert)
+    GS.create_stub_files(g2, GS.generate_stub_data(g2, out), out)
+    files2 = dict(fs.files)
+    note("oracle")
+    labels = []
+    if set(files1) != set(files2):
+        labels.append("rerun:file-set-differs")
+    elif files1 != files2:
+        labels.append("rerun:placeholder-stub-contents-differ")
+    with untraced():
+        for path, text in files1.items():
+            if text.count("\nclass ") != len({ln for ln in text.split("\n") if ln.startswith("class ")}):
+                labels.append("placeholder-class-emitted-twice-in-one-run")
+    return judge(labels)
